@@ -6,7 +6,7 @@
 EXTENDS Naturals, Integers, Sequences, FiniteSets, TLC, Json, IOUtils
 CONSTANTS NMsg
 
-Kinds == <<"int", "string", "array", "nested", "tuple", "struct", "option", "void">>
+Kinds == <<"int", "string", "array", "nested", "tuple", "struct", "option", "void", "chan", "structchan">>
 Behaviours == <<"exit", "churn", "mutate">>
 RECURSIVE JoinL(_)
 JoinL(ls) == IF ls = <<>> THEN "" ELSE ls[1] \o "\n" \o JoinL(Tail(ls))
@@ -15,26 +15,37 @@ ConcatL(ss) == IF ss = <<>> THEN <<>> ELSE ss[1] \o ConcatL(Tail(ss))
 
 TypeOf(kd) == CASE kd = "int" -> "int" [] kd = "string" -> "string" [] kd = "array" -> "array<int>" [] kd = "nested" -> "array<array<int>>"
                 [] kd = "tuple" -> "(int, string)" [] kd = "struct" -> "Pair" [] kd = "option" -> "option<array<int>>" [] kd = "void" -> "void"
+                [] kd = "chan" -> "channel<int>" [] kd = "structchan" -> "Job"
 \* the i-th message as an expression evaluated in the writer (i is a variable there), and its printed form for a given i
 MsgExpr(kd) == CASE kd = "int" -> "i * 11" [] kd = "string" -> "\"msg\" .. i" [] kd = "array" -> "[i, i + 1]"
                  [] kd = "nested" -> "[[i], [i, i]]" [] kd = "tuple" -> "(i, \"t\" .. i)" [] kd = "struct" -> "Pair(i, [i, 7])"
                  [] kd = "option" -> "option.some([i])" [] kd = "void" -> "nil"
+                 [] kd = "chan" -> "inner" [] kd = "structchan" -> "Job(i, inner)"
 Show(kd, i) == LET s == ToString(i) IN
   CASE kd = "int" -> ToString(i * 11) [] kd = "string" -> "msg" \o s [] kd = "array" -> "[ " \o s \o ", " \o ToString(i + 1) \o " ]"
     [] kd = "nested" -> "[ [ " \o s \o " ], [ " \o s \o ", " \o s \o " ] ]" [] kd = "tuple" -> "(" \o s \o ", t" \o s \o ")"
     [] kd = "struct" -> s \o " [ " \o s \o ", 7 ]" [] kd = "option" -> "some([ " \o s \o " ])" [] kd = "void" -> "nil"
-PrintStmt(kd) == IF kd = "struct" THEN "  println(m.a .. \" \" .. m.b)" ELSE "  println(m)"
+    \* a channel handle in transit: the reader drains the two values the writer had put into it
+    [] kd = "chan" -> ToString(i * 10) \o " " \o ToString(i * 10 + 1) [] kd = "structchan" -> s \o " " \o ToString(i * 10) \o " " \o ToString(i * 10 + 1)
+PrintStmt(kd) == IF kd = "struct" THEN "  println(m.a .. \" \" .. m.b)"
+                 ELSE IF kd = "chan" THEN "  println(m.read() .. \" \" .. m.read())"
+                 ELSE IF kd = "structchan" THEN "  println(m.id .. \" \" .. m.input.read() .. \" \" .. m.input.read())"
+                 ELSE "  println(m)"
+\* statements that build the inner channel of a channel-handle message before it is sent
+Pre(kd) == IF kd \in {"chan", "structchan"}
+           THEN <<"    let inner: channel<int> = channel()", "    inner.write(i * 10)", "    inner.write(i * 10 + 1)">> ELSE <<>>
 \* "mutate": the writer changes the object after sending it; the reader must still see the value as written
 AfterSend(kd, bh) == IF bh = "mutate" /\ kd = "array" THEN <<"    v.push(99)">>
                      ELSE IF bh = "mutate" /\ kd = "nested" THEN <<"    v[0].push(99)">>
                      ELSE IF bh = "mutate" /\ kd = "struct" THEN <<"    v.a = 99">> ELSE <<>>
 Text(kd, bh) == JoinL(
-  (IF kd = "struct" THEN <<"type Pair = { a: int, b: array<int> }">> ELSE <<>>) \o
+  (IF kd = "struct" THEN <<"type Pair = { a: int, b: array<int> }">>
+   ELSE IF kd = "structchan" THEN <<"type Job = { id: int, input: channel<int> }">> ELSE <<>>) \o
   << "let data: channel<" \o TypeOf(kd) \o "> = channel()",
      "let ack: channel<int> = channel()",
      "task {",
-     "  for i in " \o ToString(NMsg) \o " {",
-     "    let v = " \o MsgExpr(kd),
+     "  for i in " \o ToString(NMsg) \o " {" >> \o Pre(kd) \o
+  << "    let v = " \o MsgExpr(kd),
      "    data.write(v)" >> \o AfterSend(kd, bh) \o
   << "  }" >> \o
   (IF bh = "churn" THEN <<"  ack.write(1)", "  var j = 0", "  while j < 40 {", "    j += 1", "    let junk = [j, j, j, j]", "  }">>
